@@ -7,8 +7,10 @@
   order.  Overlap of two ranges is symmetric.  An external declaration met by a definition is resolved to the defining
   address from either side and consumes exactly that label's relocation entries (C21.link_resolves); patches set the
   addressed word (C21.patch_sets_word).
-  Not proved: order-independence of the merged label / relocation tables and of nested links (associativity), and that
-  the neighbour-only overlap test finds every overlapping pair; the correspondence check links generated sets of 2–4 files
+  `linkBlocks_ok_iff`: the block part succeeds exactly when no start occurs in both files and the union of the blocks is
+  pairwise disjoint (on a sorted map the neighbour-only overlap test finds every overlapping pair: `adjacent_iff_pairwise`);
+  `linkBlocks_members`: the result then holds exactly the blocks of both files.
+  Not proved: order-independence of the merged label / relocation tables and of nested links (associativity); the correspondence check links generated sets of 2–4 files
   in every order and bracketing and compares outcomes with each other and with a reference union.
 -/
 import Lc3V.Lemmas.SortedMap
@@ -99,8 +101,94 @@ theorem linkBlocks_sorted (a b r : Blocks) (ha : SortedKeys a) (h : linkBlocks a
     · cases h
     · cases h; rw [linkFold_fst]; exact sorted_insAll b a ha
 
+/-! ### the block part succeeds exactly when the blocks are disjoint -/
+
+/-- two blocks are disjoint: one ends at or before the start of the other -/
+def BlkBefore (x y : Nat × List (Option W)) : Prop := x.1 + x.2.length ≤ y.1
+
+/-- on a map sorted by start, testing only neighbours finds every overlapping pair -/
+theorem adjacent_iff_pairwise : ∀ (m : Blocks), SortedKeys m → (adjacentOverlap m = false ↔ m.Pairwise BlkBefore) := by
+  intro m
+  induction m with
+  | nil => intro _; simp [adjacentOverlap]
+  | cons x rest ih =>
+    intro hs
+    obtain ⟨a, ab⟩ := x
+    have hlt := hs.head_lt
+    cases rest with
+    | nil => simp [adjacentOverlap]
+    | cons y ys =>
+      obtain ⟨b, bb⟩ := y
+      have hab : a < b := hlt (b, bb) (by simp)
+      have ihh := ih hs.tail
+      simp only [adjacentOverlap, Bool.or_eq_false_iff]
+      constructor
+      · rintro ⟨h1, h2⟩
+        have hp := ihh.mp h2
+        have hfirst : a + ab.length ≤ b := by
+          simp only [rangesOverlap, Bool.and_eq_false_iff, decide_eq_false_iff_not, Nat.not_lt] at h1
+          rcases h1 with h | h
+          · omega
+          · exact h
+        refine List.pairwise_cons.mpr ⟨fun z hz => ?_, hp⟩
+        rcases List.mem_cons.mp hz with rfl | hz
+        · exact hfirst
+        · have := (List.pairwise_cons.mp hp).1 z hz
+          unfold BlkBefore at *
+          simp only at *
+          omega
+      · intro hp
+        have hp' := List.pairwise_cons.mp hp
+        refine ⟨?_, ihh.mpr hp'.2⟩
+        have := hp'.1 (b, bb) (by simp)
+        unfold BlkBefore at this
+        simp only at this
+        simp only [rangesOverlap, Bool.and_eq_false_iff, decide_eq_false_iff_not, Nat.not_lt]
+        exact Or.inr this
+
+/-- **the block part of linking succeeds exactly when no start occurs in both files and the union of the blocks is pairwise
+    disjoint**; the result is then that union, sorted by start -/
+theorem linkBlocks_ok_iff (a b : Blocks) (ha : SortedKeys a) (hb : SortedKeys b) :
+    (∃ r, linkBlocks a b = .ok r) ↔ (¬ CommonKey a b ∧ (insAll a b).Pairwise BlkBefore) := by
+  have e1 : linkBlocks a b = (if (linkFold a b false).2 then .error ⟨.overlappingBlocks, [(0, 0)]⟩
+      else if adjacentOverlap (linkFold a b false).1 then .error ⟨.overlappingBlocks, [(0, 0)]⟩ else .ok (linkFold a b false).1) := rfl
+  have hdup := linkFold_dup b a false ha hb
+  have hsorted : SortedKeys (insAll a b) := sorted_insAll b a ha
+  rw [e1, linkFold_fst]
+  constructor
+  · rintro ⟨r, h⟩
+    split at h
+    · cases h
+    · rename_i hd
+      split at h
+      · cases h
+      · rename_i hadj
+        refine ⟨fun hc => hd (hdup.mpr (Or.inr hc)), (adjacent_iff_pairwise _ hsorted).mp (by simpa using hadj)⟩
+  · rintro ⟨hc, hp⟩
+    have hd : (linkFold a b false).2 = false := by
+      cases h : (linkFold a b false).2 with
+      | false => rfl
+      | true => rcases hdup.mp h with h' | h'; cases h'; exact absurd h' hc
+    have hadj := (adjacent_iff_pairwise _ hsorted).mpr hp
+    exact ⟨insAll a b, by simp [hd, hadj]⟩
+
+/-- and then the result holds exactly the blocks of both files -/
+theorem linkBlocks_members (a b r : Blocks) (ha : SortedKeys a) (hb : SortedKeys b) (h : linkBlocks a b = .ok r) :
+    ∀ x, x ∈ r ↔ x ∈ a ∨ x ∈ b := by
+  have hok := (linkBlocks_ok_iff a b ha hb).mp ⟨r, h⟩
+  have e1 : linkBlocks a b = (if (linkFold a b false).2 then .error ⟨.overlappingBlocks, [(0, 0)]⟩
+      else if adjacentOverlap (linkFold a b false).1 then .error ⟨.overlappingBlocks, [(0, 0)]⟩ else .ok (linkFold a b false).1) := rfl
+  rw [e1] at h
+  split at h
+  · cases h
+  · split at h
+    · cases h
+    · cases h
+      rw [linkFold_fst]
+      exact mem_insAll b a ha hb hok.1
+
 def obligations : List Lean.Name :=
-  [``rangesOverlap_comm, ``Lc3V.mem_insAll, ``linkFold_dup, ``linkBlocks_comm, ``linkBlocks_sorted, ``C21.link_resolves, ``C21.patch_sets_word,
+  [``adjacent_iff_pairwise, ``linkBlocks_ok_iff, ``linkBlocks_members, ``rangesOverlap_comm, ``Lc3V.mem_insAll, ``linkFold_dup, ``linkBlocks_comm, ``linkBlocks_sorted, ``C21.link_resolves, ``C21.patch_sets_word,
    ``Lc3V.mem_insertSortedBy, ``Lc3V.sorted_insertSortedBy, ``Lc3V.sorted_ext]
 
 end Lc3V.C20
